@@ -448,6 +448,14 @@ def make_app(config=None, app=None):
         del rs.headers['X-A']
         rs.headers['X-B'] = rq.get_cookie('c') or 'none'
         return [name.encode(), b'-', (rq.headers.get('X-Id') or '').encode()]
+
+    @app.route('/redir/<name>')
+    def redir(name):
+        # the module-level helper, as an application other than the default one would call it
+        import ombott as _o
+        rs.headers['X-Own'] = name
+        rs.set_cookie('own', name)
+        _o.redirect('/next/' + name)
     return app
 
 
@@ -480,6 +488,8 @@ def environ_for(kind, name):
         env['PATH_INFO'] = '/crash/' + name
     elif kind == 'hdrs':
         env['PATH_INFO'] = '/hdrs/' + name
+    elif kind == 'redir':
+        env['PATH_INFO'] = '/redir/' + name
     elif kind == 'badpath':
         env['PATH_INFO'] = '/plain/\xff' + name
     elif kind == 'badchunk':
